@@ -1,6 +1,6 @@
 (** C10 — changing representation loses nothing: the obligations, written out in full. *)
 From Coq Require Import List NArith ZArith String.
-From SK Require Import lib.LGraph lib.StrJoin model.C10_Model proof.C10_Proof proof.C10_Hydrogen proof.C10_Routes proof.C10_GmlWrite proof.C10_HRound.
+From SK Require Import lib.LGraph lib.StrJoin model.C10_Model proof.C10_Proof proof.C10_Hydrogen proof.C10_Routes proof.C10_GmlWrite proof.C10_HRound proof.C10_Routes2.
 Import ListNotations.
 Local Open Scope Z_scope.
 
@@ -98,3 +98,19 @@ Theorem C10_h_explicit_skeleton :
        exists m, In m (node_ids g) /\ forall w, adj E h w = if N.eqb w m then Some e_single else None).
 Proof. exact h_explicit_skeleton. Qed.
 Print Assumptions C10_h_explicit_skeleton.
+
+(** Two routes, full ITS vs its centre: for every ITS graph I (a networkx graph whose nodes all carry typesGH) whose
+    reaction centre get_rc I is in the domain of the round trip ([its_ok]), the rule exported from the FULL graph with
+    core=True and the rule exported from the CENTRE (core=True again, as a caller holding only the centre would do)
+    read back to the same ITS — same node dictionaries, same bond dictionaries — and that ITS has exactly the atoms and
+    the (before, after) bonds of the centre.  (ids kept: reindex=False, explicit_hydrogen=False.  The proof goes through
+    get_rc (get_rc I) ~ get_rc I on both lookups: proof/C10_Routes2.v rc_idem_label / rc_idem_adj.)
+    Before repair c14a0f1 the full-graph export wrote the whole ITS as context (known_findings.d/C10.json). *)
+Theorem C10_two_routes_centre :
+  forall I : gr, gwfb I = true -> all_tgh I = true -> its_ok (get_rc I) = true ->
+    let A := gml_to_its (its_to_gml I true false false) in
+    let B := gml_to_its (its_to_gml (get_rc I) true false false) in
+    (forall n, label A n = label B n) /\ (forall u v, adj A u v = adj B u v) /\
+    (forall n, has_node A n = has_node (get_rc I) n) /\ (forall u v, adj A u v = adj (get_rc I) u v).
+Proof. exact two_routes_centre. Qed.
+Print Assumptions C10_two_routes_centre.
